@@ -44,6 +44,9 @@ class AsyncSocket(base_socket.BaseSocket):
         if pkt.packet_type == packet.PONG:
             self.schedule_ping()
         elif pkt.packet_type == packet.MESSAGE:
+            if self.closing or self.closed:
+                # the disconnect handler has been invoked already
+                return
             await self.server._trigger_event(
                 'message', self.sid, pkt.data,
                 run_async=self.server.async_handlers)
